@@ -31,14 +31,26 @@ Qed.
 Print Assumptions C03_cmp_total_order.
 
 (* COMPARE as pytezos computes it returns the specification's answer, for every comparable
-   type (nested arbitrarily) and every two well-typed values *)
-Theorem C03_py_compare_is_cmp : forall T, texts_ok T ->
+   type (nested arbitrarily) and every two well-typed values.
+   Full statement: the same for all values pytezos accepts.  Proved here on [has_type], which
+   leaves out exactly one class of accepted values: addresses written with an EMPTY entrypoint
+   ("A%", [VAddr k h (Some [])]); on that class the statement is false (next theorem; known
+   finding address-empty-entrypoint, FIXLOG #41 not fixed). *)
+Theorem C03_py_compare_is_cmp_partial : forall T, texts_ok T ->
   forall t a b, has_type t a = true -> has_type t b = true -> py_compare T a b = cmp t a b.
 Proof. exact py_compare_is_cmp. Qed.
-Print Assumptions C03_py_compare_is_cmp.
+Print Assumptions C03_py_compare_is_cmp_partial.
+
+(* the faithful model of the unrepaired code on the excluded class: "A%" and "A" are different
+   values for pytezos, yet COMPARE answers 1 (Gt) in both directions — no total order there *)
+Theorem C03_empty_entrypoint_refuted :
+  exists T a b, texts_ok T /\ a <> b /\ py_compare T a b = Gt /\ py_compare T b a = Gt /\
+    has_type TAddress b = true /\ has_type TAddress a = false.
+Proof. exact empty_entrypoint_refuted. Qed.
+Print Assumptions C03_empty_entrypoint_refuted.
 
 (* hence COMPARE only ever pushes -1, 0 or 1, and 0 exactly on identical values *)
-Theorem C03_compare_result : forall T, texts_ok T ->
+Theorem C03_compare_result_partial : forall T, texts_ok T ->
   forall t a b, has_type t a = true -> has_type t b = true ->
   let r := cmp_Z (py_compare T a b) in
   (r = (-1) \/ r = 0 \/ r = 1)%Z /\ (r = 0%Z <-> a = b).
@@ -48,7 +60,7 @@ Proof.
   destruct (cmp t a b); simpl; split; try tauto; split; intro H; try discriminate;
     apply E in H; discriminate.
 Qed.
-Print Assumptions C03_compare_result.
+Print Assumptions C03_compare_result_partial.
 
 (* sets, map keys and big_map keys: with pytezos' == and < on the values of a key type,
    (a) a literal passes check_constraints iff it is strictly cmp-increasing,
@@ -80,12 +92,9 @@ Example C03_witness_nested :
   witness (TPair (TOr TNever TAddress) (TOption (TPair TKey TUnit))) <> None.
 Proof. vm_compute. discriminate. Qed.
 
-(* [texts_ok] is satisfiable: fixed-width texts that spell out scheme index and payload *)
-Definition demo_texts : texts :=
-  {| kh_txt := fun c h => b8 (curve_idx c) :: h;
-     key_txt := fun c p => b8 (curve_idx c) :: p;
-     cid_txt := fun x => x;
-     addr_txt := fun k h => b8 (akind_idx k) :: map (fun _ => x00) h |}.
+(* [texts_ok] is satisfiable *)
+Example C03_texts_ok_satisfiable : texts_ok demo_texts.
+Proof. exact demo_texts_ok. Qed.
 
 Example C03_pair_first_component_decides :
   cmp (TPair TInt TInt) (VPair (VInt 1) (VInt 5)) (VPair (VInt 2) (VInt 3)) = Lt /\
